@@ -3,10 +3,12 @@
 // engine is built (the slot of a flow is populated only when the flow is built),
 // the user flow object ExecuteFlow would use is fetched (verif_c18.go shim) and a
 // generated schedule of
-//     Begin t  - transaction t enters the flow (ghost; the harness notes what the
-//                slot looks like at that moment: the state t "still uses")
-//     Use t    - Flow.GetExecutionContext().GetTransactionalContext() != nil
-//     Clean t  - Flow.CleanExecution()   (what ExecuteFlow defers for every flow)
+//
+//	Begin t  - transaction t enters the flow (ghost; the harness notes what the
+//	           slot looks like at that moment: the state t "still uses")
+//	Use t    - Flow.GetExecutionContext().GetTransactionalContext() != nil
+//	Clean t  - Flow.CleanExecution()   (what ExecuteFlow defers for every flow)
+//
 // is executed step by step on it.
 package main
 
@@ -130,7 +132,7 @@ func isolationSuite(o *c.Out, repo string) {
 			o.Hit(c.Hit{Suite: "txctx2", Index: idx, Signature: "isolation:txctx-cleared-by-overlapping-execution",
 				Demanded: "a transaction inside a flow gets the transactional context it entered the flow with (no other transaction's execution clears it)",
 				Observed: "step " + c.Z(viol[0]) + ": transaction " + c.Z(viol[1]) + " entered the flow with a populated slot and finds it nil after another transaction's CleanExecution",
-				Case: js})
+				Case:     js})
 		}
 	}
 }
